@@ -153,6 +153,9 @@ func VHeapHistory(q VHeapLike) {
 
 func VHHistory() {
 	h := NewWith[int](vl.Cmp)
+	if v.CfgOr("ctor", 0) == 1 { // the default-comparator constructor (cmp.Compare); only meaningful with cmp=0
+		h = New[int]()
+	}
 	VHeapHistory(VHeapLike{Push: h.Push, Pop: h.Pop, Peek: h.Peek, Clear: h.Clear, Values: h.Values, Size: h.Size, Empty: h.Empty, String: h.String, Heap: h, Name: "BinaryHeap"})
 }
 
